@@ -163,6 +163,8 @@ type layoutRun struct {
 	events   []any
 	comps    [][]any // per component: list of [stage, snapshot]
 	meta     [][]any // per component: [virt, layer] of every node of g.Nodes at stage 6
+	pivots   []any   // per component: [pivots, maxitr] of the phase-2 simplex loop, or nil
+	better   []any   // per component: a strictly shorter feasible layering found by search (NS layering), or nil
 }
 
 // oneLayout runs Layout once on private copies of the inputs
@@ -189,7 +191,27 @@ func oneLayout(c *Case, trace bool, withMon bool) (r layoutRun, src pg.EdgeSlice
 		sizesAfter = sizeMap(&cfg)
 	}
 	opts := buildOptions(&cfg, mon, sizesAfter)
+	var lastPivots any
+	phase2.VerifPivotsFn = func(nodes, pivots, maxitr int) {
+		if lastPivots == nil { // the first call after phase 1 is the layerer; later ones belong to the positioner
+			lastPivots = []any{pivots, maxitr}
+		}
+	}
 	autog.VerifTraceFn = func(stage int, g *ig.DGraph) {
+		if stage == 1 {
+			lastPivots = nil
+		}
+		if stage == 2 {
+			r.pivots = append(r.pivots, lastPivots)
+			var b any
+			if cfg.P2 == 0 && len(g.Nodes) > 1 {
+				if bl := improveLayering(g); bl != nil {
+					b = bl
+				}
+			}
+			r.better = append(r.better, b)
+			lastPivots = []any{} // block later calls
+		}
 		if stage == 6 {
 			var m []any
 			for _, n := range g.Nodes {
@@ -208,6 +230,7 @@ func oneLayout(c *Case, trace bool, withMon bool) (r layoutRun, src pg.EdgeSlice
 	}
 	defer func() {
 		autog.VerifTraceFn = nil
+		phase2.VerifPivotsFn = nil
 		if e := recover(); e != nil {
 			r.panicked = true
 			r.pmsg = fmt.Sprint(e)
@@ -245,6 +268,8 @@ func opLayout(c *Case) map[string]any {
 	if c.Cfg.Trace {
 		obs["comps"] = r.comps
 	}
+	obs["pivots"] = r.pivots
+	obs["better"] = r.better
 	// inputs untouched?
 	obs["inputmod"] = !reflect.DeepEqual([][]string(src), c.Edges) || !reflect.DeepEqual(szb, sza)
 	// a monitor must not change the result: same call with the monitor toggled
